@@ -326,6 +326,7 @@ def rule_lenhint(F, R, rule="R14-lenhint"):
                     continue
                 fn = norm(hb["path"])
                 body = hb["body"]
+                S_ = None
                 for c in exprs(body, ("Call", "MethodCall"), into_closures=False):
                     cal = norm(c.get("callee", ""))
                     if not (cal.endswith("Serializer::serialize_map") or cal.endswith("Serializer::serialize_seq")):
@@ -339,36 +340,58 @@ def rule_lenhint(F, R, rule="R14-lenhint"):
                         R.undecided(rule, fn, "length hint of unknown form", where=c["sp"])
                         continue
                     terms = _hint_terms(harg["args"][0], body)
-                    # entry sites written under this call's own branch (its arm stack is a prefix of theirs)
-                    st_c = None
-                    for n2, st in walk_arms(body):
-                        if n2 is c:
-                            st_c = st
-                    st_c = st_c or ()
-                    sites = []
-                    for n2, st in walk_arms(body):
-                        if n2.get("k") in ("Call", "MethodCall") and re.search(r"Serialize(Map|Seq)::serialize_(entry|element|key)$", norm(n2.get("callee", ""))):
-                            if st[:len(st_c)] == st_c:
-                                sites.append((n2, st[len(st_c):]))
-                    # classify with a second pass that knows loops
+                    if S_ is None:
+                        S_ = sem.Sem(C, hb, inline=False)
+                    cs = [x for x in S_.sites() if x.node is c]
+                    base = cs[0].pc if cs else ()
                     kinds = []
-                    seen_groups = set()
-                    for n2, st in sites:
-                        loop = _inside_for_loop(body, n2)
-                        conds = [e_ for e_ in st if e_[0] == "if"]
-                        # `if let Some(..) = ..` inside the loop body, or an `if` around the call
-                        conditional = bool(conds)
-                        user_match = [e_ for e_ in st if e_[0] != "if" and not e_[0].startswith("core::ops::control_flow") and
-                                      not (e_[0].startswith("core::option::Option<") and loop)]
-                        if user_match and not loop:
-                            g = user_match[-1][0]
-                            if g in seen_groups:
-                                continue
-                            seen_groups.add(g)
+                    groups = {}
+                    for x in S_.sites():
+                        n2 = x.node
+                        if n2.get("k") not in ("Call", "MethodCall") or \
+                                not re.search(r"Serialize(Map|Seq)::serialize_(entry|element|key)$", norm(n2.get("callee", ""))):
+                            continue
+                        if x.pc[:len(base)] != base:
+                            continue
+                        # is the entry written once per element of an iteration (for loop, or a closure handed to an iterator method)?
+                        loop = x.in_loop
+                        filtered = False
+                        if x.in_closure:
+                            clo_ = x.in_closure[-1]
+                            for mc in exprs(body, "MethodCall"):
+                                if mc["m"] in ("for_each", "try_for_each", "map", "try_fold", "fold") and any(closure_of(a_) is clo_ for a_ in mc["args"]):
+                                    loop = True
+                                    _, ch_ = chain(mc)
+                                    filtered = any(y["m"] in ("filter", "filter_map", "flatten", "take_while", "skip_while", "flat_map") for y in ch_)
+                        # conditions of its own (beyond loop bookkeeping and `?`)
+                        extra = []
+                        for f_, pol in x.pc[len(base):]:
+                            lits, ors = sem.literals(((f_, pol),))
+                            for a_, p_ in lits:
+                                if a_.kind in ("ok", "forall"):
+                                    continue
+                                if a_.kind == "is" and len(a_.scruts) == 1 and sem.is_method(a_.scruts[0].node, "next") is not None:
+                                    continue
+                                extra.append((a_, p_))
+                            extra += [("or", o_) for o_ in ors]
+                        pos_scruts = {id(a_.scruts[0].node) for a_, p_ in extra if a_ != "or" and a_.kind == "is" and p_ and len(a_.scruts) == 1}
+                        extra = [(a_, p_) for a_, p_ in extra if not (a_ != "or" and a_.kind == "is" and not p_ and len(a_.scruts) == 1 and
+                                                                     id(a_.scruts[0].node) in pos_scruts)]
                         if loop:
-                            kinds.append("count" if conditional else "len")
-                        else:
-                            kinds.append("bool" if conditional else "lit")
+                            kinds.append("count" if (extra or filtered) else "len")
+                            continue
+                        # outside loops: alternatives of one exhaustive match write one entry between them
+                        sole = extra[0] if len(extra) == 1 and extra[0][0] != "or" else None
+                        if sole and sole[0].kind == "is" and sole[1] and len(sole[0].scruts) == 1:
+                            key_ = id(sole[0].scruts[0].node)
+                            groups.setdefault(key_, {"alts": set(), "ty": norm(sole[0].scruts[0].node.get("ty", ""))})["alts"] |= \
+                                {sem.variant_head(y[0]) for y in sole[0].alts}
+                            continue
+                        kinds.append("bool" if extra else "lit")
+                    for g in groups.values():
+                        ty_ = g["ty"].replace("&mut ", "").replace("&", "").strip()
+                        uni = set(sem.enum_universe(C, ty_)) or set(sem.enum_universe(F.engine, ty_))
+                        kinds.append("lit" if uni and g["alts"] >= uni else "bool")
                     want = sorted(kinds)
                     got = []
                     for t, v in terms:
